@@ -226,7 +226,7 @@ func SimpleString() *rapid.Generator[string] {
 	return rapid.SampledFrom(words)
 }
 
-var attrNames = []string{"a", "b", "c", "id", "\u00e9", "e\u0301", "name", "x", "k\x01", "d\x7f", "t\U000E0001", "q\"uote", "back\\slash", "nl\n"}
+var attrNames = []string{"a", "b", "c", "id", "\u00e9", "e\u0301", "name", "x", "k\x01", "d\x7f", "t\U000E0001", "q\"uote", "back\\slash", "nl\n", "tail\\", "\\\\"}
 var mapKeys = []string{"a", "b", "c", "k1", "k2", "\u00e9", "e\u0301", "", "z", "foo", "\u65e5", "k\x01", "d\x7f", "t\U000E0001", "q\"uote", "back\\slash", "\t"}
 
 // distinctKeys draws n keys distinct after NFC from the pool.
